@@ -43,6 +43,13 @@ ASSUMPTIONS = [
     "performed duration, whichever object the same score is handed over as",
     "beat positions of the reference: (division - pickup) * beats per division; one time signature and one divisions "
     "value per score (beat map details are C02's subject)",
+    "large scales (sub-spaces magnitude, long-scores): divisions are int32 in note arrays, so score positions stay below "
+    "2**31 divisions; beat positions and performed times are float32 in the note arrays, the matched table and the "
+    "parameters, so for performed times T > 10 s the common-shift tolerance grows by 8 ulp_float32(T) (performed onset, "
+    "timing parameter of up to 3 T and the accumulated beat periods are each rounded to single precision) and for score "
+    "positions B > 16 beats the duration tolerance grows by 2 ulp_float32(B) x performed/score duration (the table's "
+    "score duration is (onset + duration) - onset in float32); the scale factor multiplies divisions per quarter and all "
+    "divisions alike, so beats and the expected values do not change with it",
     "trusted: numpy, scipy.interpolate.interp1d, PerformedPart construction without pedal (sound_off == note_off)",
 ]
 CHUNK = 6
@@ -113,6 +120,7 @@ def eval_case(case):
 
     enc_score, enc_perf, dec_score, tm_score, tm_perf = _inputs(case)
     configs = [tuple(c) for c in case.get("configs", ALL_CONFIGS)]
+    tol_on, dur_ulp = _scaled_tolerances(sref, pref)
 
     # ---- matched-note table -------------------------------------------------------------------
     res.transitions += 1
@@ -205,7 +213,7 @@ def eval_case(case):
                                  detail="%s note=%s (grace note)" % (cctx, sid))
             else:
                 err = abs(du - p["dur"])
-                if not err <= TOL_DUR_ABS + TOL_DUR_REL * p["dur"]:
+                if not err <= TOL_DUR_ABS + TOL_DUR_REL * p["dur"] + dur_ulp * p["dur"] / float(sref[sid]["dur"]):
                     clause = "decoded-duration-below-floor" if p["dur"] < DUR_FLOOR else "decoded-duration"
                     res.fail(clause, expected=p["dur"], observed=du, where="decode_performance",
                              detail="%s note=%s" % (cctx, sid))
@@ -219,7 +227,7 @@ def eval_case(case):
                 res.fail("decoded-duration", expected=off, observed=float(so), where="decode_performance",
                          detail="%s note=%s sound_off differs from note_off" % (cctx, sid))
         spread = max(shifts) - min(shifts) if shifts else 0.0
-        if not spread <= TOL_ON:
+        if not spread <= tol_on:
             exp = [round(pref[s2p_id[str(n["id"])]]["on"] - min(pref[s2p_id[str(m["id"])]]["on"] for m in dn), 6) for n in dn]
             res.fail("decoded-onset", expected=dict(zip(dids, exp)),
                      observed=dict(zip(dids, [float(n["note_on"]) for n in dn])), where="decode_performance",
@@ -247,6 +255,21 @@ def eval_case(case):
     res.extra = {"configurations": len(configs)}
     res.payload = (worst_on, worst_du)
     return res
+
+
+def _scaled_tolerances(sref, pref):
+    """(onset tolerance, extra duration tolerance per unit of performed/score duration) for this case: the constants
+    TOL_ON / TOL_DUR_* hold for performed times < 10 s and score positions < 16 beats; beyond, single-precision
+    rounding of the times themselves is larger than the constants (see ASSUMPTIONS)"""
+    t_max = max([abs(p["on"]) + p["dur"] for p in pref.values()] + [0.0])
+    b_max = max([abs(float(s["beat"])) + float(s["dur"]) for s in sref.values()] + [0.0])
+    tol_on = TOL_ON
+    dur_ulp = 0.0
+    if t_max > 10.0:
+        tol_on += 8 * float(np.spacing(np.float32(t_max)))
+    if b_max > 16.0:
+        dur_ulp = 2 * float(np.spacing(np.float32(b_max)))
+    return tol_on, dur_ulp
 
 
 def _check_table(res, tab, ids, sref, pref, s2p_id, exp_sorted, exp_keys, ctx):
@@ -561,6 +584,73 @@ def gen_unison_forms():
     return gen
 
 
+FACTORS = [1, 480, 5040, 151200, "max"]
+FACTORS_THOROUGH = [1, 480, 5040, 2 ** 16 + 1, 151200, 2 ** 24 + 1, "max"]
+LEADS = [0, 1, 8, 70]
+LEADS_THOROUGH = [0, 1, 8, 30, 70, 150]
+FORMS = ["part", "score", "list", "arrays"]
+
+
+def _factor(sc, f):
+    """'max' = the largest whole number of divisions per grid unit that keeps the end of the last note (and of the
+    last measure) below 2**31 divisions (note arrays hold onset_div / duration_div as int32)"""
+    if f != "max":
+        return f
+    m = M.METERS[sc["meter"]]
+    last = max(n[2] + n[3] for n in sc["notes"]) + m["mlen"]
+    return (2 ** 31 - 1) // last
+
+
+def gen_magnitude(scores, factors, leads, all_forms=False):
+    """the small scores again with large times: divisions per grid unit x f, and a second copy of the notes `lead`
+    measures later (so that small and large positions occur in one score)"""
+    def gen():
+        j = 0
+        for si, sc0 in enumerate(scores):
+            for lead in leads:
+                for f in factors:
+                    sc = M.tile(sc0, [lead] if lead else [])
+                    ff = _factor(sc, f)
+                    if ff > _factor(sc, "max"):
+                        continue  # beyond the int32 columns of the note array
+                    if ff != 1:
+                        sc["factor"] = ff
+                    for form in (FORMS if all_forms else [FORMS[j % 4]]):
+                        j += 1
+                        perf = M.make_perf(sc, BPS_PATTERNS[j % len(BPS_PATTERNS)], (20000, 0)[(j // 3) % 2], STYLES[j % 4],
+                                           1 + (j * 11) % 127, start_us=(250000, 1000000)[(j // 7) % 2],
+                                           order=PORDERS[(j // 2) % 3])
+                        al = M.all_match(sc, perf)
+                        tag = "magnitude s%d lead=%d factor=%s" % (si, lead, f)
+                        yield dict(tag=tag, score=sc, perf=perf, align=M.reorder(al, ORDERS[j % 3]), form=form)
+                        ids = [n[0] for n in sc["notes"]]
+                        sid = ids[(j * 5) % len(ids)]
+                        al2 = [a for a in al if a["score_id"] != sid] + [dict(label="deletion", score_id=sid),
+                                                                           dict(label="insertion", performance_id="p_" + sid)]
+                        if len(al2) > 2:
+                            yield dict(tag=tag + " del+ins:%s" % sid, score=sc, perf=perf,
+                                       align=M.reorder(al2, ORDERS[(j + 1) % 3]), form=form)
+    return gen
+
+
+def gen_long(scores, bars, factors, nconf=4):
+    """long instances of a regular pattern: the small score repeated in every one of N measures"""
+    def gen():
+        j = 0
+        for si, sc0 in enumerate(scores):
+            for f in factors:
+                for n in bars:
+                    j += 1
+                    sc = M.tile(sc0, list(range(1, n)), f)
+                    perf = M.make_perf(sc, BPS_PATTERNS[j % len(BPS_PATTERNS)], (20000, 0)[(j // 3) % 2], STYLES[j % 4],
+                                       1 + (j * 11) % 127, order=PORDERS[(j // 2) % 3])
+                    al = M.reorder(M.all_match(sc, perf), ORDERS[j % 3])
+                    cf = [list(ALL_CONFIGS[(3 * j + 7 * k) % len(ALL_CONFIGS)]) for k in range(nconf)]
+                    yield dict(tag="long s%d measures=%d factor=%s" % (si, n, f), score=sc, perf=perf, align=al,
+                               form=FORMS[(j // 2) % 4], configs=cf)
+    return gen
+
+
 def _block(gen, B, b):
     def it():
         for c in gen():
@@ -624,6 +714,22 @@ def spaces(tier, seed):
                     "pitch) with a written duration {shorter, equal, longer} x voice 2 added to the part {before, after} voice 1 x "
                     "{with, without} a fourth note x input form {Part, Score+Performance, [Part], note arrays} x 3 alignment "
                     "orders; meter, tempo pattern, chord spread, duration style and performance order cycled; all-match alignment"))
+    sp.append(Space("magnitude", gen_magnitude(rs, FACTORS if quick else FACTORS_THOROUGH, LEADS if quick else LEADS_THOROUGH,
+                                               all_forms=not quick), True,
+                    "10 representative scores x second copy of all notes {none, 1, 8, 70%s} measures later x divisions per grid "
+                    "unit {1, 480, 5040 (= 10080 per quarter in 4/4 and 6/8), %s151200 (= 302400 per quarter), %sthe largest value "
+                    "that keeps the end of the score below 2**31 divisions} (same beats, all divisions multiplied) x {all-match, one "
+                    "deletion+insertion}; combinations that pass 2**31 divisions are left out; input form %s; tempo pattern, chord spread, duration style, orders cycled; score "
+                    "positions reach 84.7e6 divisions resp. 2**31-1 and 420 beats, performed times 340 s" % (
+                        ("", "", "", "cycled over {Part, Score+Performance, [Part], note arrays}") if quick else
+                        (", 30, 150", "65537, ", "16777217, ", "ALL of {Part, Score+Performance, [Part], note arrays}"))))
+    sp.append(Space("long-scores", gen_long(rs, (30, 100) if quick else (30, 100, 300), (1, 5040) if quick else (1, 480, 5040),
+                                            nconf=4 if quick else 10), True,
+                    "10 representative scores repeated in every one of N measures, N in {30, 100%s} (up to %d notes, %d score "
+                    "onsets, %d beats) x divisions per grid unit {1, %s5040}; %s; input form, tempo pattern, spread, style, "
+                    "orders cycled; all-match alignment" % (
+                        ("", 600, 400, 600, "", "4 of the 10 configurations per case (cycled, every configuration occurs)")
+                        if quick else (", 300", 1800, 1200, 1800, "480, ", "all 10 configurations"))))
     return sp
 
 
